@@ -202,6 +202,12 @@ theorem inv_step {s s' : State} (a : Action) (hi : Inv s) (h : step s a = some s
     · rename_i hg; cases h
       exact inv_shut_ctx hi rfl (ctxDone_isSome (s.shuts k) .cancel)
     · simp at h
+  | sig n k =>
+    simp only [step] at h
+    split at h
+    · rename_i hg; cases h
+      exact inv_shut_ctx hi rfl (ctxDone_isSome (s.shuts k) .cancel)
+    · cases h; exact hi
   | cancel =>
     simp only [step] at h
     split at h
